@@ -13,7 +13,7 @@ cd $WT
 if ! git apply $OUT/patch.diff; then echo "PATCH-DOES-NOT-APPLY"; git -C /repo worktree remove --force $WT; exit 3; fi
 T=$(cargo test --workspace --offline --no-fail-fast 2>&1 | grep -E "^test result" | awk '{p+=$4; f+=$6} END {print p" "f}')
 echo "tests passed/failed with change: $T"
-RUN=$(ls $OUT/demo/run.sh $OUT/run.sh $OUT/demo/run_demo.sh 2>/dev/null | head -1)
+RUN=$(ls $OUT/demo/run.sh $OUT/run.sh $OUT/demo/run_demo.sh $OUT/demo/demo.sh 2>/dev/null | head -1)
 if [ -n "$RUN" ]; then
   (cd $(dirname $RUN) && TREE=$WT bash $RUN > $OUT/confirm_with.txt 2>&1); echo "demo with change: exit=$?"
   git checkout -q . 
